@@ -25,7 +25,7 @@ func init() {
 }
 
 func runC03(c *Ctx) bool {
-	nMax := c.Pick(5, 6)
+	nMax := c.Pick(5, 7)
 	idx := 0
 	// single-root trees: shapes whose only depth-1 node is the first
 	for n := 1; n <= nMax; n++ {
@@ -64,7 +64,7 @@ func runC03(c *Ctx) bool {
 			}
 		})
 	}
-	nRand := c.Pick(3000, 50000)
+	nRand := c.Pick(3000, 200000)
 	for j := 0; j < nRand; j++ {
 		i := idx
 		idx++
